@@ -29,7 +29,7 @@ def load_mutants():
             if os.path.exists(meta) and os.path.exists(patch):
                 mj = json.load(open(meta))
                 out.append({"id": "seed-" + d, "property": mj["property"], "patch": patch, "desc": mj.get("summary", ""),
-                            "expect": mj.get("expect", "fire"), "rules": mj.get("caught_by", []), "benign": mj.get("expect") == "silent"})
+                            "expect": mj.get("expect", "fire"), "rules": [r.split("[")[0] for r in mj.get("caught_by", [])], "benign": mj.get("expect") == "silent"})
     return out
 
 
